@@ -52,7 +52,7 @@ def cases(ctx):
 
     @st.composite
     def _cases(draw):
-        bp = draw(bpl.blueprints(max_nodes=MAX_NODES[ctx.tier], min_nodes=2, meta_pct=35))
+        bp = draw(bpl.blueprints(max_nodes=MAX_NODES[ctx.tier], min_nodes=2, meta_pct=35, own_param_outputs=True))
         return {
             "bp": bp,
             "edits": draw(st.lists(ed.edits(ed.NEUTRAL), min_size=1, max_size=3)),
